@@ -94,14 +94,6 @@ Definition judge_groups (c : cfg) (u : option uuid) (lo hi : N) (es : list entry
       else Ok
   end.
 
-(* Find By Type Value: 06 lo hi 00 28 value (2 or 16 bytes) *)
-Definition parse_fbtv_req (pdu : list N) : option (uuid * N * N) :=
-  match pdu with
-  | 6 :: a :: b :: x :: y :: 0 :: 40 :: v =>
-      if (length v =? 2)%nat || (length v =? 16)%nat then Some (uuid_of_bytes v, w16 a b, w16 x y) else None
-  | _ => None
-  end.
-
 (* 07 (first last)* : the uuid of the groups is the requested one *)
 Definition parse_fbtv_resp (u : uuid) (resp : list N) : presp :=
   match resp with
@@ -118,23 +110,39 @@ Definition c03_judge (c : cfg) (m : mon) (cid : nat) (k : dkind) (u : option uui
   else session_step m cid k lo hi p (judge_groups c u lo hi)
                     (fun l => svc_matching c u l hi) (fun _ => true) ct_exact ct_enumerated.
 
+(* the requests this property judges *)
+Inductive c03_req := RGroup (lo hi : N) | RValue (u : uuid) (lo hi : N).
+Definition c03_parse (pdu : list N) : option c03_req :=
+  match pdu with
+  | op :: a :: b :: x :: y :: t0 :: t1 :: v =>
+      if (t0 =? 0) && (t1 =? 40) then
+        (* Read By Group Type: 10 lo hi 00 28 *)
+        if (op =? 16) && match v with [] => true | _ => false end then Some (RGroup (w16 a b) (w16 x y))
+        (* Find By Type Value: 06 lo hi 00 28 value (2 or 16 bytes) *)
+        else if (op =? 6) && ((length v =? 2)%nat || (length v =? 16)%nat)
+        then Some (RValue (uuid_of_bytes v) (w16 a b) (w16 x y))
+        else None
+      else None
+  | _ => None
+  end.
+
 Definition c03_step (c : cfg) (m : mon) (o : srv_op) (r : srv_out) : verdict * mon :=
   match o with
   | OpIn cid pdu n =>
       if n <? default_att_mtu then (Ok, m)
       else
-        match parse_req pdu, parse_fbtv_req pdu with
-        | Some (16, KGroup, lo, hi), _ =>
+        match c03_parse pdu with
+        | Some (RGroup lo hi) =>
             match r with
             | OBytes resp => c03_judge c m cid KGroup None lo hi (parse_resp 16 resp)
             | _ => (Bad ct_shape, upd m cid None)
             end
-        | _, Some (u, lo, hi) =>
+        | Some (RValue u lo hi) =>
             match r with
             | OBytes resp => c03_judge c m cid (KType u) (Some u) lo hi (parse_fbtv_resp u resp)
             | _ => (Bad ct_shape, upd m cid None)
             end
-        | _, _ => (Ok, m)
+        | None => (Ok, m)
         end
   | OpDisc cid => (Ok, upd m cid None)
   | _ => (Ok, m)
